@@ -30,7 +30,7 @@ CLAIMED.update({
  "C06": ("exploration", "5.6", "Generated authorization sequences through the real JSON endpoint (new, duplicate, single-field conflicts incl. key reuse, foreign/invalid signatures, banned ids, arbitrary finite float64 coordinates) interleaved with reports, rotations, restarts; equipment/ban reference model compared on snapshot, equipment list (bit exact), recent reports by key, sync by id, live statistics, plus the server's own CheckInvariants after every step.",
          "Fresh ids always carry fresh keys; coordinates whose sum overflows float64 are excluded because the repo's test-mode WattTime stub derives the impact rate from that sum."),
  "C07": ("exploration", "5.7", "1-4 batches of 2-8 concurrent registration request tasks (valid for three candidate keys, wrong signers, altered key, replays) released in seeded orders, with restarts in between, and equipment / server / migration authority attempts signed by the temp key, the server key, losing candidates and the winner before and after registration; compared with the sequential rules in execution order.",
-         "Concurrency is the seeded order of whole requests (one critical section each); real parallel execution is exercised by C13's race mode."),
+         "The deterministic part orders whole requests (one critical section each); a second, auxiliary part fires 4-24 valid registrations for distinct keys on real parallel goroutines in a -race binary and requires exactly one success with memory, file and restart agreeing (sound, sampled, not exactly replayable) - a check-then-act gap introduced inside the registration has no yield site and is only visible there."),
 })
 
 CLAIMED.update({
@@ -40,12 +40,12 @@ CLAIMED.update({
 
 CLAIMED.update({
  "C12": ("exploration", "5.12", "Hostile datagrams, TCP sessions and HTTP requests (nine routes x five methods x hostile queries and bodies, incl. correctly GCA-signed structures with extreme fields) at (now, offset) configurations incl. a stalled rotation thread up to now-offset 4500 and traffic injected inside the start-up catch-up loop; authorized peers up, down, refusing, timing out or answering 503 while authorizations and server posts are forwarded; 0-6 idle or half-sent sync connections at Close(). After every input: no handler panic (recover wrapper is the witness), liveness probe answered, every mutex free; Close() bounded by 2 x serverShutdownTime of simulated time.",
-         "net/http connection handling and the accept loops are stubs; NASA/WattTime are unreachable in this flavour; GCA-signed inputs never assign one key to two ids."),
+         "net/http connection handling and the accept loops are stubs; GCA-signed inputs never assign one key to two ids; a production-constant supplement (a third of the budget) restarts a server after weeks offline with real weekly WattTime fetches against a responding / slow / failing service, injects traffic inside the catch-up loop and exercises geo-stats with WattTime and NASA responders."),
 })
 
 CLAIMED.update({
  "C13": ("exploration", "5.13 + 3.10", "Deterministic part: 10-40 operations with the rotation and impact loops running; every place where an operation or job runs between two critical sections is a yield site; at each park 0-2 interfering operations from the menu {ban, authorize, report, rotate, statistics GET with insert_false_negatives, server post, sync} are injected; model effects are applied at every quiescent point in exactly the order of the real critical sections; after every step every mutex must be free (leaked-lock probe), mutex deadlocks are caught by a real-time watchdog, panics in background jobs by the parent. Race part (auxiliary, not deterministic): the same world free-running with 8-48 goroutines per workload in a -race binary; any report with repository frames is a violation.",
-         "Interleavings only at the hooked critical-section boundaries; the race part samples real schedules and cannot be replayed exactly (re-run up to 10 times)."),
+         "Interleavings only at the hooked critical-section boundaries (a gap introduced by a change has no yield site: only the race part can see it); the race part samples real schedules, adds order-independent oracles (slot values, registration count, consistency check) in strong runs and cannot be replayed exactly (re-run up to 10 times); a production-constant supplement interleaves bans, authorizations and reports with the weekly WattTime job."),
 })
 
 CLAIMED.update({
